@@ -1,4 +1,4 @@
-\* x3mand2
+\* spec -> code export of every final graph
 SPECIFICATION Spec
 CONSTANTS
   Cand <- Cand3
